@@ -60,6 +60,10 @@ struct GtOptions
     int exprDepth = 4;
     bool smallExprs = false; // C05: tiny expressions
     bool avoidKnownBadShapes = true; // exclude generator parenthesisation findings by construction (counted)
+    // NLA equations are written F(u) = F(W); with this option two thirds of them (chosen by a hash of the equation, no tape
+    // read, so that tapes decode alike with and without it) become  k = (F(u) - F(W)) + k  with k a known variable as seen
+    // in the system's component (possibly in scaled units): a bare known variable as one side of an implicit equation.
+    bool nlaBareKnown = false;
     std::vector<Op> operatorPool; // empty = all
 };
 
